@@ -5,11 +5,11 @@ CONSTANTS
   Rules <- AllRules
   Cfg <- CfgPoS3
   MaxLive = 2
-  MaxNum = 5
+  MaxNum = 6
   MaxNow = 2
   MaxTx = 1
   MaxBal = 2
-  Kinds <- KindsStakeQ
+  Kinds <- KindsStake
   Ords <- OrdId4
   Window = TRUE
 INVARIANT TypeOK
